@@ -1,1 +1,8 @@
-//! shared helpers
+//! shared helpers for the harnesses
+use std::collections::hash_map::RandomState;
+
+/// `HashMap::new()` seeds its hasher through the `getrandom` syscall, which Kani does not support;
+/// harnesses that build a map stub `RandomState::new` with fixed keys.
+pub fn fixed_random_state() -> RandomState {
+    unsafe { std::mem::transmute::<(u64, u64), RandomState>((1, 2)) }
+}
